@@ -4,7 +4,7 @@ Template directives (everything else in the template is copied as is - it is con
 types, assume_specifications, spec functions, lemmas):
 
   //@struct <file> <Name>            type definition from the repo (derives filtered, fields made pub)
-  //@enum   <file> <Name>
+  //@enum   <file> <Name> [noclone]  (noclone: derive(Clone) dropped; the template supplies `impl Clone` with an assumed spec)
   //@impl   <file> <impl anchor>     emits the repo's impl header + '{'   (anchor: `impl T` | `impl Tr for T`)
   //@endimpl                         emits '}'
   //@fn <file> <impl anchor|-> <name> [ret=<ident>]
@@ -210,9 +210,15 @@ def expand(template_path, repo='/repo'):
         s = line.strip()
         if s.startswith('//@struct ') or s.startswith('//@enum '):
             kind, f, name = s[3:].split()[:3]
+            opts = s[3:].split()[3:]
             attrs, text = rc.cut_type(src(f), kind, name)
             info = {'dropped_derives': []}
-            out.append(_filter_attrs(attrs, info) + _widen_type(text))
+            fa = _filter_attrs(attrs, info)
+            if 'noclone' in opts:
+                # derive(Clone) is replaced by an explicit impl with an (assumed) spec in the template
+                fa = re.sub(r'\bClone,\s*|,\s*Clone\b|\bClone\b', '', fa).replace('#[derive()]\n', '')
+                info['dropped_derives'].append('Clone (explicit impl with assumed spec in the template)')
+            out.append(fa + _widen_type(text))
             side['types'].append({'file': f, 'name': name, 'line': rc.line_of(src(f), src(f).find(text))})
             side['dropped_derives'] += ['%s on %s' % (d, name) for d in info['dropped_derives']]
         elif s.startswith('//@impl '):
